@@ -189,3 +189,25 @@ Theorem c02_alias_replay_loss_witness_v5 :
      Client.Loop5.lstep5 l Client.Loop5.TakeRequest5 = Client.Loop5.Failed5 l' (Client.Loop5.LE5State (E5InvalidAlias 5 3)) /\
      Client.LoopInv5.owed5 l' = [] /\ Client.Loop5.chan5 l' = [] /\ Client.Loop5.connected5 l' = false).
 Proof. exact Client.LoopInv5.alias_lowered_replay_loses_publish5. Qed.
+
+(* K-C02-v5-alias (known finding): the class predicate over a loop history, that it drops the
+   request, and its witness (with two neighbours outside the class) *)
+Theorem c02_k_alias_drops_request_v5 : forall l, Client.Loop5Proofs.alias_refused5 l = true ->
+  exists p l1 a, Client.Loop5.next_request5 l = Some (R5Publish p, l1) /\ q_alias p = Some a /\
+    Client.Loop5.lstep5 l Client.Loop5.TakeRequest5
+    = Client.Loop5.Failed5 (Client.Loop5.loop_clean5 l1) (Client.Loop5.LE5State (E5InvalidAlias a (s5_alias_max (Client.Loop5.st5 l1)))).
+Proof. exact Client.Loop5Proofs.alias_refused5_drops. Qed.
+
+Theorem c02_k_alias_witness_v5 :
+  Client.Loop5Proofs.k_alias5 (Client.Loop5.linit5 2 false) Client.Loop5Proofs.k_alias5_witness_history = true /\
+  Client.Loop5Proofs.k_alias5 (Client.Loop5.linit5 2 false)
+    [Client.Loop5.Reconnect5 true None (Some 10); Client.Loop5.Yield5; Client.Loop5.UserSend5 (R5Publish (mkPub5 Q1 0 1 1 (Some 3)));
+     Client.Loop5.TakeRequest5; Client.Loop5.Yield5; Client.Loop5.Fail5; Client.Loop5.Reconnect5 true None (Some 3); Client.Loop5.Yield5;
+     Client.Loop5.TakeRequest5] = false /\
+  Client.Loop5Proofs.k_alias5 (Client.Loop5.linit5 2 false)
+    [Client.Loop5.Reconnect5 true None (Some 3); Client.Loop5.Yield5; Client.Loop5.UserSend5 (R5Publish (mkPub5 Q1 0 1 1 (Some 5)));
+     Client.Loop5.TakeRequest5] = false /\
+  option_map (fun l => (Client.Loop5.pending5 l, held5 (Client.Loop5.st5 l), Client.Loop5.chan5 l, Client.Loop5.connected5 l))
+    (Client.Loop5.lrun5 (Client.Loop5.linit5 2 false) Client.Loop5Proofs.k_alias5_witness_history)
+  = Some ([], [], [], false).
+Proof. exact Client.Loop5Proofs.k_alias5_witness. Qed.
